@@ -71,6 +71,34 @@ CLAIMED = {
             "Trusted: T-store fault model (an action raises before its effect), T-codec readers raise on bytes they cannot parse. "
             "Four defects found by these obligations were repaired in /repo (688103c, dcaf38a) - see known_findings.json.",
             "DESIGN.md 4/C07"),
+    "C14": ("Proof with a fault edge on every storage action, manifest reader and parquet parser of the read path: every read API "
+            "(_get_all_data_files, _scan_table sequential and parallel, scan, scan_batches, _iter_file_batches, iter_records, row_count, "
+            "_read_datafile_table) raises whenever something on its path raises or a referenced file is missing; [] is returned only "
+            "for an empty table (dangling current id, missing manifest list or manifest raise); every manifest of the list and every "
+            "file of the listing is read (loop invariants, no skip on error); with verification on, the rows are parsed from the very "
+            "bytes whose SHA-256 was compared, a mismatch raises CorruptDataError, and the default is ON.",
+            "Trusted: T-store fault model, T-arrow (parsers raise on bytes that are not parquet), T-codec (manifest readers raise on "
+            "bytes they cannot parse - the Avro-then-JSON fallback inside FileManager.read_manifest_* is applied at this contract and "
+            "not yet verified itself), T-hash (SHA-256 injective). Which exceptions fastavro/pyarrow raise for which damage is assumed.",
+            "DESIGN.md 4/C14"),
+    "C02": ("Proof, under a rely condition in which other agents may advance the pointer between any two metadata reads, that each "
+            "read API obtains its file list from exactly ONE metadata read (one pointer read -> immutable metadata -> immutable "
+            "manifests), reads every file of that list once (path de-duplication), and applies one filter engine. A two-read race "
+            "found by this obligation was repaired in /repo (53d4131). Atomic visibility of multi-operation transactions and "
+            "monotonicity of successive reads rest on 'at most one pointer flip per commit, versions only advance' (C01), stated "
+            "here as an assumption until C01's obligations are discharged.",
+            "Trusted: R_immut (files of retained snapshots are immutable, uuid-named files never reused - the guarantee side is C09), "
+            "T-store, T-arrow. Real parallel execution is represented by environment steps at metadata reads only (reads of immutable "
+            "files commute with every other agent's action).",
+            "DESIGN.md 4/C02"),
+    "C17": ("Proof that LocalStorageBackend._resolve_path returns a canonical path inside the canonical root or raises ValueError for "
+            "every base path, path string and symlink layout (realpath treated as an arbitrary function into normalised symlink-free "
+            "paths); that each public method resolves its argument first and hands the OS only inside paths, derived paths included "
+            "(dirname, temp names, walk results), rejecting escapes before any OS call; that list_files returns root-relative names; "
+            "that DataFileManager._get_arrow_path / open_parquet_source admit only inside paths.",
+            "Trusted: T-os path algebra axioms (validated only by sampling), A-toctou. DataFileWriter temp-file placement and FileLock "
+            "paths are covered through the resolved-path contract of their callers.",
+            "DESIGN.md 4/C17"),
 }
 
 NA_REASON = {
